@@ -3,7 +3,7 @@
    parsers for expressions, paths and closures are parameters: every theorem below holds for
    EVERY function in their place (so in particular for syn's), for every token list. *)
 From ASModel Require Import Base Tokens Report Ast IR Expand Parser FrontEnd.
-From ASProofs Require Import ParserP FuelP.
+From ASProofs Require Import ParserP FuelP ErrLocP.
 
 (* The macro never panics: neither the parser (expect / panic! / unreachable! / unwrap in
    field.rs, struct_pattern.rs, tuple.rs) nor the expander (root_field_name, tail_operations,
@@ -49,3 +49,19 @@ Theorem c13_total : forall regex join_ok parse_expr parse_path parse_closure,
     (exists sp, front_end_from regex join_ok parse_expr parse_path parse_closure start ts = FEErr sp).
 Proof. exact front_end_total. Qed.
 Print Assumptions c13_total.
+
+(* Error location: every compile error the front end returns is attached to a span that starts where a token
+   of the invocation starts (for a group: where it opens or closes), or to the call site — provided the spans
+   syn's own parsers report start where a token of THEIR input starts (checked on every table entry of every
+   correspondence run).  "To the offending token where there is one, otherwise to the call." *)
+Theorem c13_error_located : forall regex join_ok parse_expr parse_path parse_closure,
+  (forall l sp, parse_expr l = OErr (OErrAt sp) -> starts_in l sp) ->
+  (forall l r, parse_expr l = OOk r -> (forall u, eo_unx r = Some u -> starts_in l u) /\ starts_in l (u_span (eo_u r))) ->
+  (forall l sp, parse_path l = OErr (OErrAt sp) -> starts_in l sp) ->
+  (forall l r, parse_path l = OOk r -> forall u, po_unx r = Some u -> starts_in l u) ->
+  (forall l sp, parse_closure l = OErr (OErrAt sp) -> starts_in l sp) ->
+  (forall l c, parse_closure l = OOk c -> (forall u, co_unx c = Some u -> starts_in l u) /\ starts_in l (co_inputs_span c)) ->
+  forall start ts sp,
+    front_end_from regex join_ok parse_expr parse_path parse_closure start ts = FEErr sp -> starts_in ts sp.
+Proof. exact front_end_error_points_into_invocation. Qed.
+Print Assumptions c13_error_located.
